@@ -418,6 +418,11 @@ func c26Main(seed uint64, n int, replay string) {
 			}
 			cases = append(cases, &Case{ID: len(cases), Op: "c26", S: map[string]string{"kind": "reconnect"}, P: p})
 		}
+		// the server has dropped the subscription (Republish answers BadSubscriptionIDInvalid) while the session was kept,
+		// and after a successful transfer: it must be recreated
+		cases = append(cases,
+			&Case{ID: len(cases), Op: "c26", S: map[string]string{"kind": "reconnect"}, P: map[string]int{"session_lost": 0, "transfer_ok": 1, "republish_ok": 0, "create_ok": 1, "items_ok": 1, "groups": 2, "rounds": 1}},
+			&Case{ID: len(cases) + 1, Op: "c26", S: map[string]string{"kind": "reconnect"}, P: map[string]int{"session_lost": 1, "transfer_ok": 1, "republish_ok": 0, "create_ok": 1, "items_ok": 1, "groups": 1, "rounds": 1}})
 		for i := len(cases); i < n; i++ {
 			cases = append(cases, c26Gen(r, i))
 		}
